@@ -20,7 +20,7 @@ Local Open Scope list_scope.
 (* 3. the per-call step, all five calls                                                                *)
 
 Theorem sim_step : forall orc chunk s s' st valid encs prev c,
-  Sim s st valid encs prev -> call_good c -> meta_enc_b s c = true -> meta_guess_b s c = true -> oracle_ok_call orc c ->
+  Sim s st valid encs prev -> call_good c -> meta_oracle_at orc s c -> meta_guess_b s c = true -> oracle_ok_call orc c ->
   do_call c s = (s', Ok tt) -> 0 < chunk ->
   (Z.of_nat (length (w_out s')) <= sys_maxsize)%Z ->
   step_ok orc chunk s st valid encs prev c s'.
@@ -66,6 +66,22 @@ Fixpoint guesses_ok (s : wstate) (cs : list call) : Prop :=
 
 Definition oracle_ok (orc : oracle) (cs : list call) : Prop := Forall (oracle_ok_call orc) cs.
 
+(* the json.loads oracle for the write_meta calls made with NO encoding in force (possible only in a writer
+   constructed with encoding=None): since the fix of write_meta such a call is accepted and the JSON is written,
+   and read back, as BYTES; there the oracle must answer  loads (dumps j ++ b"\n") = j  for the bytes
+   ([meta_oracle_at], RoundTripStep.v).  Nothing is required where an encoding is in force ([meta_enc_b]). *)
+Fixpoint metas_oracle_ok (orc : oracle) (s : wstate) (cs : list call) : Prop :=
+  match cs with
+  | [] => True
+  | c :: t => meta_oracle_at orc s c /\ metas_oracle_ok orc (fst (do_call c s)) t
+  end.
+
+Lemma metas_oracle_of_encoded : forall orc cs s, metas_encoded s cs -> metas_oracle_ok orc s cs.
+Proof.
+  intros orc. induction cs as [|c t IH]; intros s H; [exact I|]. cbn [metas_encoded metas_oracle_ok] in *.
+  destruct H as [H1 H2]. split; [left; exact H1|apply IH; exact H2].
+Qed.
+
 Lemma accepted_cons : forall s c t, accepted s (c :: t) ->
   exists s', do_call c s = (s', Ok tt) /\ accepted s' t.
 Proof.
@@ -76,7 +92,7 @@ Proof.
 Qed.
 
 Lemma sim_run : forall orc chunk cs s st valid encs prev,
-  Sim s st valid encs prev -> Forall call_good cs -> accepted s cs -> metas_encoded s cs -> guesses_ok s cs ->
+  Sim s st valid encs prev -> Forall call_good cs -> accepted s cs -> metas_oracle_ok orc s cs -> guesses_ok s cs ->
   oracle_ok orc cs ->
   0 < chunk -> (Z.of_nat (length (w_out (snd (run_calls s cs)))) <= sys_maxsize)%Z ->
   forall suf rest, w_out (snd (run_calls s cs)) = w_out s ++ suf -> remaining (st_stream st) = suf ++ rest ->
@@ -90,7 +106,7 @@ Proof.
   - destruct (accepted_cons _ _ _ Hacc) as (s' & Hcall & Hacc').
     inversion Hg as [|? ? Hgc Hgt]; subst. inversion Horc as [|? ? Hoc Hot]; subst.
     cbn [guesses_ok] in Hgs. destruct Hgs as [Hgc' Hgt']. rewrite Hcall in Hgt'. cbn [fst] in Hgt'.
-    cbn [metas_encoded] in Hme. destruct Hme as [Hmc Hmt]. rewrite Hcall in Hmt. cbn [fst] in Hmt.
+    cbn [metas_oracle_ok] in Hme. destruct Hme as [Hmc Hmt]. rewrite Hcall in Hmt. cbn [fst] in Hmt.
     rewrite WriterFacts.run_calls_cons in Hout, Hsize. cbn [snd] in Hout, Hsize. rewrite Hcall in Hout, Hsize. cbn [fst] in Hout, Hsize.
     destruct (WriterFacts.C09_append_run t s') as [suf' Hsuf'].
     assert (Hsize' : (Z.of_nat (length (w_out s')) <= sys_maxsize)%Z).
@@ -115,13 +131,13 @@ Proof.
   rewrite firstn_nil. cbn. reflexivity.
 Qed.
 
-(* [metas_encoded s0 cs] (RoundTripSim.v): at every write_meta of the program an encoding is in force.  Without it
-   the statement is false of the fixed writer: DiffXWriter(encoding=None) now accepts write_meta, writes the JSON
-   as bytes, and the reader asks the json oracle about BYTES, which [oracle_ok] says nothing about
-   ([C01_round_trip_unencoded_refuted] in RoundTripCor.v). *)
+(* [metas_oracle_ok orc s0 cs]: at every write_meta of the program an encoding is in force, or else the oracle
+   answers for the JSON BYTES.  Without it the statement is false of the fixed writer: DiffXWriter(encoding=None) now
+   accepts write_meta, writes the JSON as bytes, and the reader asks the json oracle about bytes, which [oracle_ok]
+   (the JSON text) says nothing about ([C01_round_trip_unencoded_refuted] in RoundTripCor.v). *)
 Theorem C01_round_trip : forall enc0 ver s0 cs orc chunk,
   writer_init enc0 ver = (s0, Ok tt) -> enc_ok enc0 ->
-  Forall call_good cs -> accepted s0 cs -> metas_encoded s0 cs -> guesses_ok s0 cs -> oracle_ok orc cs ->
+  Forall call_good cs -> accepted s0 cs -> metas_oracle_ok orc s0 cs -> guesses_ok s0 cs -> oracle_ok orc cs ->
   0 < chunk -> (Z.of_nat (length (w_out (snd (run_calls s0 cs)))) <= sys_maxsize)%Z ->
   read_all orc chunk (w_out (snd (run_calls s0 cs))) = (main_record enc0 ver :: expected_records s0 1 cs, TEnd).
 Proof.
